@@ -36,7 +36,7 @@ Record etok := mke { e_gap : gap; e_tok : tok }.
 
 Definition child_math (math : bool) (open : tok) : bool :=
   match open with
-  | TFunc s => is_math_name s
+  | TFunc s => is_math_name s || math
   | TParen => math
   | _ => false
   end.
@@ -219,19 +219,22 @@ Fixpoint take_prelude (at_rule : bool) (l : list node) : list node * option node
 
 Definition all_ws (l : list node) : bool := forallb (fun n => is_ws_or_comment (node_tok n)) l.
 
-(* at-rule prelude: top-level tokens free of requirements, blocks in selector context *)
-Fixpoint at_prelude_spec (o : opts) (l : list node) : list etok :=
+(* at-rule prelude: top-level tokens free of requirements, blocks in selector context; in the prelude of a generic
+   at-rule (`lay`: not in the media query of a rewritten `@import`) `layer(a.b)` names a cascade layer: a value *)
+Fixpoint at_prelude_spec (o : opts) (lay : bool) (l : list node) : list etok :=
   match l with
   | [] => []
   | n :: r =>
-      if is_ws_or_comment (node_tok n) then at_prelude_spec o r
+      if is_ws_or_comment (node_tok n) then at_prelude_spec o lay r
       else
         (match n with
          | Block open _ body _ _ =>
-             [mke GFree open] ++ sel_spec o true body true false false false ++ [mke GFree (close_of open)]
+             [mke GFree open] ++
+             (if lay && is_layer_fn open then val_spec o false body None false
+              else sel_spec o true body true false false false) ++ [mke GFree (close_of open)]
          | Leaf (TDim nm u) _ => [mke GFree (rpx_tok o nm u)]
          | Leaf t _ => [mke GFree t]
-         end) ++ at_prelude_spec o r
+         end) ++ at_prelude_spec o lay r
   end.
 
 (* ---- :host ---- *)
@@ -330,7 +333,7 @@ Definition import_spec (o : opts) (sign : str) (prelude : list node) : option (l
       let '(conds, k, rest) := import_conds_spec o r true in
       match skip_ws rest with
       | [] | Leaf (TIdent _) _ :: _ | Block TParen _ _ _ _ :: _ =>
-      let media := at_prelude_spec o rest in
+      let media := at_prelude_spec o false rest in
       let '(mtoks, k') := match media with
                           | [] => ([], k)
                           | _ => ([mke GFree (TAt s_media)] ++ media ++ [mke GFree TCurly], S k)
@@ -378,7 +381,7 @@ Fixpoint rules_spec (fuel : nat) (o : opts) (chain : list (list etok)) (l : list
                 | _, _ => mkso [] [] w [] false
                 end
             | None =>
-                let head := [mke GFree (TAt x)] ++ at_prelude_spec o prelude in
+                let head := [mke GFree (TAt x)] ++ at_prelude_spec o true prelude in
                 match term with
                 | Some (Block _ _ body _ _) =>
                     if ideal_contain x then
